@@ -27,6 +27,7 @@ func stdFamilies(tier string) []family {
 			famPPromo(),
 			famPPromo2(true),
 			famPBlock(),
+			famPEPOwn([]int8{space.Q, space.R, space.B, space.N}, "PEP(own piece)"),
 			famPDisc(),
 		}
 	}
@@ -36,6 +37,7 @@ func stdFamilies(tier string) []family {
 		famPEP([]int8{space.R}, false, "PEP(extra=rook)"),
 		famPPromo(),
 		famPBlock(),
+		famPEPOwn([]int8{space.R}, "PEP(own rook)"),
 	}
 }
 
